@@ -27,13 +27,18 @@ def _thrown_type(thr):
     return (dtype(kids(thr)[0]) or '').replace('const ', '').strip()
 
 
-def _is_failure_stmt(s, unit):
-    """Statement that always raises expectation_failed."""
+def _is_failure_stmt(s, unit, consts=None):
+    """Statement that always raises expectation_failed (on the path where the flags in consts hold
+    their initial values)."""
     s = strip(s)
     if s is None:
         return False
     if s.get('kind') == 'CallExpr' and _is_expect_generic(s, unit):
         args = call_args(s)
+        if len(args) >= 1 and consts:
+            rd = ref_decl(args[0])
+            if rd and rd.get('id') in consts:
+                return not consts[rd['id']]
         return len(args) >= 1 and int_value(args[0]) == 0
     if s.get('kind') == 'CXXThrowExpr':
         t = _thrown_type(s)
@@ -82,7 +87,7 @@ def _seq_reaches_failure(stmts, unit, consts):
     """The statement sequence raises a failure on the path where the flags in
     consts have their initial values."""
     for s in stmts:
-        if _is_failure_stmt(s, unit):
+        if _is_failure_stmt(s, unit, consts):
             return True
         k = s.get('kind')
         if k == 'ReturnStmt':
@@ -336,16 +341,38 @@ def run(ctx):
                 val = pol
         return val
     throws = [x for x in walk(body) if x.get('kind') == 'CXXThrowExpr']
+    # a call of a helper that never returns and forwards (msg, file, line) to the exception is a throw site
+    fwd_map = {}
+    for c_ in walk(body):
+        if c_.get('kind') == 'CallExpr' and not falls_through(c_):
+            d_ = callee_decl(c_, u)
+            hb_ = body_of(d_) if d_ is not None else None
+            if hb_ is None and d_ is not None:
+                d_ = next((m_ for m_ in u.functions if m_.get('mangledName') == d_.get('mangledName') and body_of(m_) is not None), None)
+                hb_ = body_of(d_) if d_ is not None else None
+            if hb_ is not None:
+                ht_ = [x for x in walk(hb_) if x.get('kind') == 'CXXThrowExpr']
+                if len(ht_) == 1:
+                    throws.append(c_)
+                    fwd_map[id(c_)] = (ht_[0], d_)
     rets = [x for x in walk(body) if x.get('kind') == 'ReturnStmt']
     ctx.check(len(throws) >= 1, R, 'throws-exist', body, '%d throw site(s)' % len(throws), 'expect_generic never throws')
     for i, t in enumerate(throws):
         pv = pred_value(path_facts(t))
         ctx.check(pv is False, R, 'throw-only-when-pred-false|%d' % i, t, 'throw reached only under !pred', 'throw reachable when pred is %s' % ('true' if pv else 'unconstrained'))
+        t_call = t
+        if id(t) in fwd_map:
+            t, hd_ = fwd_map[id(t)]
         ty = _thrown_type(t) or ''
         ctx.check(ty.endswith('expectation_failed'), R, 'throw-type|%d' % i, t, 'throws expectation_failed', 'throws %s' % ty)
         ce = [x for x in walk(t) if x.get('kind') in ('CXXConstructExpr', 'CXXTemporaryObjectExpr') and (dtype(x) or '').endswith('expectation_failed') and len(kids(x)) == 3]
         if ce:
             names = [(ref_decl(a) or {}).get('name') for a in kids(ce[0])]
+            if id(t_call) in fwd_map:
+                # through the helper: its parameters, in order, bound to the caller's (msg, file, line)
+                pn_ = [p_.get('name') for p_ in params_of(hd_)]
+                an_ = [(ref_decl(a) or {}).get('name') for a in call_args(t_call)]
+                names = [an_[pn_.index(n_)] if n_ in pn_ and pn_.index(n_) < len(an_) else None for n_ in names]
             ctx.check(names == ['msg', 'file', 'line'], R, 'throw-args|%d' % i, t, 'expectation_failed(msg, file, line)', 'exception constructed from %s' % names)
         else:
             ctx.bad(R, 'throw-args|%d' % i, t, 'cannot find the expectation_failed(msg, file, line) construction')
